@@ -31,12 +31,18 @@ def run_real(argv, files, src_path, timeout=120):
         env = dict(os.environ)
         env["PYTHONPATH"] = src_path
         env.pop("PYTHONHASHSEED", None)
+        stdin = subprocess.DEVNULL
+        if real_argv and real_argv[-1] == "-":
+            cands = sorted(p for p in files if p == SIMFS + "in" or p.startswith(SIMFS + "in."))
+            stdin = open(os.path.join(d, cands[0][len(SIMFS):]), "rb")
         try:
-            p = subprocess.run([sys.executable, "-m", "cutadapt"] + real_argv, stdin=subprocess.DEVNULL,
+            p = subprocess.run([sys.executable, "-m", "cutadapt"] + real_argv, stdin=stdin,
                                stdout=subprocess.PIPE, stderr=subprocess.PIPE, env=env, cwd=d, timeout=timeout)
             rc, out, err, hung = p.returncode, p.stdout, p.stderr.decode("utf-8", "replace"), False
         except subprocess.TimeoutExpired as e:
             rc, out, err, hung = None, e.stdout or b"", (e.stderr or b"").decode("utf-8", "replace"), True
+        if stdin is not subprocess.DEVNULL:
+            stdin.close()
         r = RealResult()
         r.exit = rc
         r.hung = hung
